@@ -193,12 +193,12 @@ pub fn converge() {
         let src = a.ad.read().unwrap();
         let mut files = src.list_objects("").unwrap();
         files.reverse();
-        for f in files {
-            if sym::any_bool() {
-                break;
-            }
-            c.ad.write().unwrap().write_object(&f, &src.read_object(&f, 0, 0).unwrap()).unwrap();
-            if sym::any_bool() {
+        // the copy stops after `stop` files; one incremental refresh happens after `mid` of them
+        let stop = sym::choose(files.len() + 1);
+        let mid = sym::choose(stop + 1);
+        for (i, f) in files.iter().take(stop).enumerate() {
+            c.ad.write().unwrap().write_object(f, &src.read_object(f, 0, 0).unwrap()).unwrap();
+            if i + 1 == mid {
                 c.m.refresh().expect("refresh c");
             }
         }
